@@ -340,6 +340,7 @@ pub struct StepW {
 	pub debug: u32,
 	pub accessors: u32,
 	pub temp_coll: u32,
+	pub kill: u32,
 	pub p_try: u8,
 	pub p_read: u8,
 	pub p_owned_key: u8,
@@ -351,6 +352,8 @@ pub struct StepW {
 	pub p_yield: u8,
 	pub p_coll_target: u8,
 	pub p_transient: u8,
+	/// chance that a scoped call is made from a destructor during an unwinding
+	pub p_unwinding_drop: u8,
 }
 
 impl Default for StepW {
@@ -370,6 +373,7 @@ impl Default for StepW {
 			debug: 0,
 			accessors: 0,
 			temp_coll: 0,
+			kill: 0,
 			p_try: 110,
 			p_read: 100,
 			p_owned_key: 100,
@@ -381,6 +385,7 @@ impl Default for StepW {
 			p_yield: 0,
 			p_coll_target: 190,
 			p_transient: 0,
+			p_unwinding_drop: 0,
 		}
 	}
 }
@@ -493,6 +498,7 @@ pub fn gen_seq(src: &mut Src<'_>, cfg: &SeqCfg) -> SeqCase {
 			sw.debug,
 			sw.accessors,
 			sw.temp_coll,
+			if world.leaves.is_empty() { 0 } else { sw.kill },
 		];
 		let Some(k) = src.weighted(&weights) else { continue };
 		let step = match k {
@@ -529,7 +535,12 @@ pub fn gen_seq(src: &mut Src<'_>, cfg: &SeqCfg) -> SeqCase {
 				if owned_key {
 					st[t].key = false;
 				}
-				Step::Scoped { target, read, try_, owned_key, body }
+				let sc = Step::Scoped { target, read, try_, owned_key, body };
+				if src.chance(sw.p_unwinding_drop) {
+					Step::UnwindingDrop { inner: Box::new(sc) }
+				} else {
+					sc
+				}
 			}
 			5 => {
 				let ops = gen_body(src, &world, sw, true);
@@ -576,6 +587,7 @@ pub fn gen_seq(src: &mut Src<'_>, cfg: &SeqCfg) -> SeqCase {
 				Step::Debug { target, cap, payload }
 			}
 			12 => Step::Accessors { target: gen_target(src, &world, sw.p_coll_target) },
+			14 => Step::Kill { leaf: src.pick(world.leaves.len()) },
 			_ => {
 				let kind = match src.pick(3) {
 					0 => KindTag::Boxed,
